@@ -11,6 +11,8 @@ Inductive site :=
 | SIntsWalk        (* IntsBuilder.WalkPassthrough: no visited set -> unbounded recursion *)
 | SDmPath          (* datamodeldiagram.DrawRelation: Path[1] on a one-element reference *)
 | SSwaggerSplit    (* exporter.populateEndpoint: strings.Split(name," ")[1] on an RPC endpoint *)
+| SSwaggerParam    (* exporter.setCommonAttributes: param.Schema.ExtraProps on a path/query parameter (Schema is nil) *)
+| SOa3RetSplit     (* syslwrapper.mapResponse: strings.Split(payload," <: ")[1] on `ok<:T` *)
 | SDbPath          (* database.findTableDepth: Path[1] *)
 | SDbWriterPath    (* database.writeCreateSQLForAColumn: Path[0]/Path[1] *)
 | SDbOrder         (* database.processTableDepth: recursion without progress *)
